@@ -162,6 +162,10 @@ def parse_term(s):
     if m:
         callee, ops = split_call(m.group(2))
         return ('call', parse_place(P(m.group(1))), callee, ops, None)
+    m = re.match(r'(.*?) = (.*\)) -> bb\d+;$', s)      # diverging call whose only edge is the unwind (cleanup) edge
+    if m:
+        callee, ops = split_call(m.group(2))
+        return ('call', parse_place(P(m.group(1))), callee, ops, None)
     m = re.match(r'(.*?) = (.*\));$', s)
     if m:
         callee, ops = split_call(m.group(2))
